@@ -22,6 +22,8 @@ checks = {
          "Each base scenario is re-executed under ~45 read/write segmentations (client chunkings, handler read buffers 1..8/64/4096, handler write plans) and, in the thorough tier, under all 2^(n-1) compositions of request bodies and response streams of at most 13 bytes; decoded views must be identical to the reference run, raw bytes too wherever nothing is re-encoded in binary form. Adapter-path hooks must all have fired or the run is inconclusive.", "5/C08"),
  "C09": ("fault_enumeration", "fault enumeration (every cut offset, flag value, bit flip, length lie) with a fault-aware backend and non-OK / prefix / well-formedness oracles",
          "For each base scenario every single fault of the listed kinds is injected, one per execution (quick ~130k, thorough ~1.6M faulted executions): the client must see a non-OK outcome, the backend never a complete-looking message the client did not finish, the error must be well formed where the protocol allows it, ServeHTTP must return. Exhaustive per base scenario for cut offsets and flag values; base scenarios are sampled.", "5/C09"),
+ "C10": ("exploration", "pool-capacity hook (largest pooled buffer per request) + self-calibrated size boundaries in a serial, quiet process",
+         "900/9000 scenarios (limits 1 KiB..1 MiB; sizes L-1..100L; gzip ratios to 1000:1; JSON-expanding messages; large error bodies and end frames; both directions), each run first under a 1 GiB limit to observe every representation size and then under L: everything fits => success; size-affected failure => resource_exhausted; the largest buffer the pool hooks see during the request must stay <= 4L+64 KiB. TotalAlloc deltas are recorded only (heap shared with the harness).", "5/C10"),
  "C11": ("fault_enumeration", "recover()/journal/watchdog monitors and net/http framing assertions over structure-aware hostile inputs and hostile backend scripts",
          "60k (quick) / 1.2M (thorough) executions of ServeHTTP with requests mutated by 0..4 hostile operators and backends following hostile scripts; any panic that is not the backend's own scripted panic, any process death, any response net/http could not frame (status range, Content-Length vs bytes, body on 204/304), a second response head, I/O after return or a double dispatch is a violation. Says nothing about inputs outside the generator's reach.", "5/C11"),
  "C12": ("exploration", "exact-arithmetic reference grammars (math/big) over boundary-enumerated timeout strings",
